@@ -54,6 +54,9 @@ def instantiations(tier, seed):
         for ans in ["vector", "none", "raise"][: (3 if k % 3 == 0 else 1)]:
             out.append({"part": "select", "model": c, "prio_keys": keys, "answer": ans})
         if k % 3 == 0:
+            # a solver that has no answer (None), asked through the configurator, with and without the restriction to leaf items
+            out.append({"part": "cfgselect", "model": c, "prio_keys": keys[:1], "answer": "none", "only_leafs": True})
+            out.append({"part": "cfgselect", "model": c, "prio_keys": keys[:1], "answer": "none", "only_leafs": False})
             # the solver may fail in any way: exceptions without arguments, with several, of other classes
             for how in ("bare", "assert", "two-args"):
                 out.append({"part": ["select", "cfgselect"][k % 2], "model": c, "prio_keys": keys[:1], "answer": "raise", "raise_how": how, "only_leafs": bool(k % 4)})
